@@ -118,11 +118,11 @@ def outcome_diff(ref, o):
 
 
 FMT_CHANNELS = {
-    "md": ["str", "bytes", "bytesio", "path", "file", "bytes_implicit", "pathlike"],
-    "csv": ["str", "bytes", "bytesio", "path", "file", "bytes_implicit"],
-    "xlsx": ["bytes", "bytesio", "path", "file", "bytes_implicit", "pathlike"],
+    "md": ["str", "bytes", "bytesio", "path", "file", "bytes_implicit", "pathlike", "rawfile", "spooled"],
+    "csv": ["str", "bytes", "bytesio", "path", "file", "bytes_implicit", "rawfile", "spooled"],
+    "xlsx": ["bytes", "bytesio", "path", "file", "bytes_implicit", "pathlike", "rawfile", "spooled"],
     "xlsm": ["bytes", "path", "bytesio"],
-    "xls": ["bytes", "bytesio", "path", "file", "bytes_implicit"],
+    "xls": ["bytes", "bytesio", "path", "file", "bytes_implicit", "rawfile", "spooled"],
 }
 
 
